@@ -28,7 +28,7 @@ def run_pt(ctx, states, rng):
             np.add.at(want.reshape(-1), T[nz] - 1, rho[nz])
             got = numqi.utils.partial_trace(rho, dims, set(keep))
             ctx.evaluations += 1
-            if got.shape != want.shape or np.abs(got - want).max() > TOL:
+            if got.shape != want.shape or core.gt(np.abs(got - want).max(), TOL):
                 ctx.violation('C17:partial_trace:contraction', 'partial trace differs from the explicit index contraction (dims=%s keep=%s)' % (dims, keep), data)
                 continue
             # every matrix unit separately for the smaller configurations (one implementation test per unit)
@@ -40,15 +40,15 @@ def run_pt(ctx, states, rng):
                         w = np.zeros(R * R, dtype=complex)
                         if tab[a][b]:
                             w[tab[a][b] - 1] = 1
-                        if np.abs(numqi.utils.partial_trace(e, dims, set(keep)).reshape(-1) - w).max() > TOL:
+                        if core.gt(np.abs(numqi.utils.partial_trace(e, dims, set(keep)).reshape(-1) - w).max(), TOL):
                             ctx.violation('C17:partial_trace:matrix-unit', 'partial trace of a matrix unit differs (dims=%s keep=%s)' % (dims, keep), dict(data, unit=[a, b]))
                             raise StopIteration
             # states keep unit trace
             psi = np.array([complex(rng.randint(-3, 3), rng.randint(-3, 3)) for _ in range(D)])
-            if np.abs(psi).max() > 0:
+            if core.gt(np.abs(psi).max(), 0):
                 psi = psi / np.linalg.norm(psi)
                 tr = np.trace(numqi.utils.partial_trace(np.outer(psi, psi.conj()), dims, set(keep)))
-                if abs(tr - 1) > TOL:
+                if core.gt(abs(tr - 1), TOL):
                     ctx.violation('C17:partial_trace:unit-trace', 'partial trace of a state does not have unit trace', data)
         except StopIteration:
             pass
@@ -80,10 +80,10 @@ def run_dicke(ctx, states, rng):
             for i, k in enumerate(kl):
                 want = np.zeros(d ** n)
                 want[sorted(setof(obs['orbit'][i]))] = 1 / np.sqrt(obs['mult'][i])
-                if np.abs(basis[i] - want).max() > TOL:
+                if core.gt(np.abs(basis[i] - want).max(), TOL):
                     bad('get_dicke_basis', 'row is not the uniform superposition over the orbit', dict(klist=list(k)))
                     break
-                if np.abs(Dk.Dicke(*k) - want).max() > TOL:
+                if core.gt(np.abs(Dk.Dicke(*k) - want).max(), TOL):
                     bad('Dicke', 'vector is not the uniform superposition over the orbit', dict(klist=list(k)))
                     break
             # reduction table, both forms
@@ -91,12 +91,12 @@ def run_dicke(ctx, states, rng):
             Bt = Dk.get_partial_trace_ABk_to_AB_index(n, d, return_tensor=True)
             Bl = Dk.get_partial_trace_ABk_to_AB_index(n, d, return_tensor=False)
             want = np.array([[[[float(np.sqrt(c[0] / c[1])) for c in row] for row in m] for m in rs] for rs in B2], dtype=float)
-            if Bt.shape != want.shape or np.abs(Bt - want).max() > TOL:
+            if Bt.shape != want.shape or core.gt(np.abs(Bt - want).max(), TOL):
                 bad('get_partial_trace_ABk_to_AB_index', 'tensor form differs from sqrt(a_r b_s)/n on the allowed pairs')
             dense = np.zeros((d * d, len(kl), len(kl)))
             for idx, (I, J, V) in enumerate(Bl):
                 dense[idx, I, J] = V
-            if np.abs(dense.reshape(want.shape) - want).max() > TOL:
+            if core.gt(np.abs(dense.reshape(want.shape) - want).max(), TOL):
                 bad('get_partial_trace_ABk_to_AB_index', 'index-list form differs')
             # fast reduction vs explicit embedding + exact partial trace, numpy and torch
             for dimA in (2, 3):
@@ -108,11 +108,11 @@ def run_dicke(ctx, states, rng):
                 want_r = numqi.utils.partial_trace(rho_full, [dimA] + [d] * n, {0, 1})
                 got = Dk.partial_trace_ABk_to_AB(v, Bl)
                 ctx.evaluations += 1
-                if got.shape != want_r.shape or np.abs(got - want_r).max() > 1e-8:
+                if got.shape != want_r.shape or core.gt(np.abs(got - want_r).max(), 1e-8):
                     bad('partial_trace_ABk_to_AB', 'numpy: fast reduction differs from embedding + explicit partial trace', dict(dimA=dimA))
                 Blt = [(torch.tensor(I), torch.tensor(J), torch.tensor(V)) for I, J, V in Bl]
                 got_t = Dk.partial_trace_ABk_to_AB(torch.tensor(v), Blt).numpy()
-                if got_t.shape != want_r.shape or np.abs(got_t - want_r).max() > 1e-8:
+                if got_t.shape != want_r.shape or core.gt(np.abs(got_t - want_r).max(), 1e-8):
                     bad('partial_trace_ABk_to_AB', 'torch: fast reduction differs from embedding + explicit partial trace', dict(dimA=dimA))
         except Exception as ex:
             ctx.violation('C17:exception:dicke', type(ex).__name__ + ': ' + str(ex)[:160], data)
